@@ -3,6 +3,7 @@ package props
 import (
 	"fmt"
 	"go/ast"
+	"go/token"
 	"go/types"
 	"math/big"
 	"sort"
@@ -295,6 +296,7 @@ func checkC08(r *core.Run) {
 	r.Rule("R-C08-consts", "curve, endomorphism (lambda, beta, GLV lattice) and limb constants satisfy their defining equations")
 	r.Rule("R-C08-limbs", "interval abstract interpretation of every field operation's limb arithmetic, per limb layout: under the magnitude contract of its inputs no uint64/uint32 operation wraps, no 128-bit accumulator overflows (each discarded carry-out is an obligation), and every output limb stays within the bound of the output magnitude (Normalize/SetB32: canonical limb ranges)")
 	r.Rule("R-C08-alias", "in-place safety of the group operations: in every method of XYZ/XY that takes an output record and an input record of the same type, no coordinate of the input is read (directly, through a field operation, or by passing the record on) after the same coordinate of the output was written - the operations are called with the output aliasing an input (r.Add(r, &p), r.Double(r))")
+	r.Rule("R-C08-words", "code that works on the machine words of a big number (big.Int.Bits) is correct for the word size of the configuration it is built for: bit counts are split into word index and bit offset with the platform's word width (64 or 32), and an access words[i] is guarded by a bound test on that same i")
 	r.Rule("R-C08-mag", "magnitude typestate through the group/signature code: every Mul/Sqr/Inv/Sqrt operand has magnitude <= 8, every Negate(x,m) has mag(x) <= m, every Equals/IsZero/IsOdd/GetB32 operand is normalised, SetAdd/MulInt results stay <= 32, and the coordinates of every record passed to or returned from a function stay within the coordinate invariant (computed as least fixpoint and printed)")
 	r.Exhaust["R-C08-tables"] = true
 	r.Explain = "Static: literals of the precomputed tables and curve constants are read from the type-checked syntax tree of /repo (no gocoin code is executed) and compared with values recomputed from the group law; magnitude/overflow abstract interpretation of the limb arithmetic and of the group formulas' call sites (see rules). Decides the 'tables contain exactly the multiples of G' sentence exhaustively and necessary conditions (no limb overflow, magnitude preconditions) of the field/group sentences."
@@ -308,8 +310,10 @@ func checkC08(r *core.Run) {
 		c08Limbs(r, p, v.name)
 		if v.arch == "" {
 			c08Alias(r, p)
+			c08SpecialCases(r, p, "R-C08-alias")
 		}
 		c08Mag(r, p, v.name)
+		c08Words(r, p, v.name)
 		if v.arch == "" {
 			c08Consts(r, p)
 		}
@@ -535,4 +539,129 @@ func c08Mag(r *core.Run, p *core.Program, variant string) {
 		r.OK(rule, variant+"/all-sites", "-", fmt.Sprintf("%d operand sites in %d functions satisfy their magnitude contracts", ma.Sites, ma.Funcs))
 	}
 	r.Check(ma.Sites >= 150, rule, variant+"/floor/sites", "-", fmt.Sprintf("%d sites", ma.Sites), fmt.Sprintf("only %d magnitude sites found (expected several hundred)", ma.Sites))
+}
+
+// c08Words: see R-C08-words. Analysed per configuration: under GOARCH=386 a big.Word has 32 bits, and the
+// constant folded from bits.UintSize is 32 there, while a literal 64 stays 64.
+func c08Words(r *core.Run, p *core.Program, cfgName string) {
+	const rule = "R-C08-words"
+	pk := p.Pkg("lib/secp256k1")
+	if pk == nil {
+		return
+	}
+	wordBits := int64(64)
+	if pk.TypesSizes != nil {
+		wordBits = 8 * pk.TypesSizes.Sizeof(types.Typ[types.Uint])
+	}
+	nf := 0
+	var bad []string
+	for _, f := range p.ModuleFuncs() {
+		if fp := core.FuncPkg(f); fp == nil || !strings.HasSuffix(fp.Path(), "lib/secp256k1") {
+			continue
+		}
+		bitsCalls := an.CallsTo(f, false, "(*math/big.Int).Bits")
+		if len(bitsCalls) == 0 {
+			continue
+		}
+		nf++
+		words := map[string]bool{}
+		for _, c := range bitsCalls {
+			words[an.Expr(c.(ssa.Value))] = true
+		}
+		an.Instrs(f, func(i ssa.Instruction) {
+			switch x := i.(type) {
+			case *ssa.BinOp:
+				if x.Op != token.QUO && x.Op != token.REM {
+					return
+				}
+				k, isC := an.ConstOf(x.Y)
+				if !isC {
+					return
+				}
+				if _, fromParam := x.X.(*ssa.Parameter); fromParam && k.Int64() != wordBits && (k.Int64() == 64 || k.Int64() == 32) {
+					bad = append(bad, fmt.Sprintf("%s splits a bit count with the constant %d at %s; a big.Word has %d bits in this configuration", core.FuncName(f), k.Int64(), p.Pos(x.Pos()), wordBits))
+				}
+			case *ssa.Store:
+				ia, ok := x.Addr.(*ssa.IndexAddr)
+				if !ok || !words[an.Expr(ia.X)] {
+					return
+				}
+				idx := an.Expr(ia.Index)
+				// inside a counting loop the loop condition is the guard; otherwise a dominating "idx < len(words)"
+				w := an.Expr(ia.X)
+				cs := an.DomConds(x.Block())
+				okG := false
+				for _, form := range []string{"(" + idx + " < uint(builtin.len(" + w + ")))", "(" + idx + " < builtin.len(" + w + "))", "(int(" + idx + ") < builtin.len(" + w + "))"} {
+					if an.HasCond(cs, form, true) {
+						okG = true
+					}
+				}
+				if !okG {
+					bad = append(bad, fmt.Sprintf("%s writes %s[%s] at %s without a dominating bound test on that same index", core.FuncName(f), w, idx, p.Pos(x.Pos())))
+				}
+			}
+		})
+	}
+	sort.Strings(bad)
+	r.Check(len(bad) == 0 && nf >= 1, rule, "big-words/"+cfgName, "-", fmt.Sprintf("%d function(s) working on big-number words, word width %d", nf, wordBits), strings.Join(bad, "; "))
+}
+
+// c08SpecialCases: the addition formulas are undefined for equal inputs (h = 0). In every Add* method the
+// branch that handles equal x (doubling, or the point at infinity for opposite points) must leave the
+// function: no field multiplication or squaring of the generic formula may follow it on any path.
+func c08SpecialCases(r *core.Run, p *core.Program, rule string) {
+	n := 0
+	var bad []string
+	for _, f := range p.ModuleFuncs() {
+		fn := core.FuncName(f)
+		if !strings.HasPrefix(fn, "(*lib/secp256k1.XYZ).Add") {
+			continue
+		}
+		for _, b := range f.Blocks {
+			for k, ins := range b.Instrs {
+				special := false
+				if c, ok := ins.(*ssa.Call); ok && strings.HasSuffix(an.CallName(c), ".Double") {
+					special = true
+				}
+				if st, ok := ins.(*ssa.Store); ok {
+					if fa, ok := st.Addr.(*ssa.FieldAddr); ok {
+						if fl, _ := an.FieldOf(fa); fl == "lib/secp256k1.XYZ.Infinity" && an.Expr(st.Val) == "true" {
+							special = true
+						}
+					}
+				}
+				if !special {
+					continue
+				}
+				n++
+				// anything multiplied after it?
+				seen := map[*ssa.BasicBlock]bool{}
+				var walk func(x *ssa.BasicBlock, from int) bool
+				walk = func(x *ssa.BasicBlock, from int) bool {
+					for _, i2 := range x.Instrs[from:] {
+						if c, ok := i2.(*ssa.Call); ok {
+							cn := an.CallName(c)
+							if strings.HasSuffix(cn, "Field).Mul") || strings.HasSuffix(cn, "Field).Sqr") || strings.HasSuffix(cn, "Field).MulInt") {
+								return true
+							}
+						}
+					}
+					for _, sc := range x.Succs {
+						if !seen[sc] {
+							seen[sc] = true
+							if walk(sc, 0) {
+								return true
+							}
+						}
+					}
+					return false
+				}
+				if walk(b, k+1) {
+					bad = append(bad, fmt.Sprintf("%s continues with the generic formula after the special case at %s", fn, p.Pos(ins.Pos())))
+				}
+			}
+		}
+	}
+	sort.Strings(bad)
+	r.Check(len(bad) == 0 && n >= 4, rule, "special-cases-return", "-", fmt.Sprintf("%d special-case results (doubling / infinity), none followed by the generic formula", n), strings.Join(bad, "; "))
 }
